@@ -63,6 +63,12 @@ def run_demo(wt, demo_dir):
 def confirm(sid, outdir, props, name):
     base = json.load(open("/root/.vp/BASELINE.json"))["stable_pass"]
     wt = f"/tmp/seedv-{sid}"
+    # the pinned suite uses fixed names under the temp directory: a private one per confirmation, so
+    # that several confirmations can run side by side
+    tmpd = f"/tmp/seedv-{sid}-tmp"
+    shutil.rmtree(tmpd, ignore_errors=True)
+    os.makedirs(tmpd)
+    os.environ["TMPDIR"] = tmpd
     sh(["git", "-C", "/repo", "worktree", "remove", "--force", wt])
     rc, out = sh(["git", "-C", "/repo", "worktree", "add", "-q", wt, "HEAD"])
     if rc:
@@ -115,6 +121,7 @@ def confirm(sid, outdir, props, name):
     finally:
         sh(["git", "-C", "/repo", "worktree", "remove", "--force", wt])
         shutil.rmtree(wt, ignore_errors=True)
+        shutil.rmtree(tmpd, ignore_errors=True)
 
 
 def detect(sid, props, runs):
